@@ -581,6 +581,9 @@ def run(ctx):
     from . import c11
     c05.subst_conformance(ctx, r)
     c11.python_half(ctx, py)
+    # the checker's judgements are the documented ones: a judgement that answers "no" where the documented machine answers "yes"
+    # (a lost polarity flip, a stricter freshness) refuses well-formedness checks and instantiations a generated module relies on
+    c05.judgement_conformance(ctx, r)
     ctx.floor('emit', 24)
     ctx.floor('layout', 22)
     ctx.floor('wiring', 18)
